@@ -213,11 +213,91 @@ func (e *Engine) contractOfFrame(fr *Frame) *Contract {
 }
 
 func (e *Engine) loopSpec(fr *Frame, li *loopInfo) *LoopSpec {
+	if ls, ok := e.borrowed[li.header]; ok {
+		return ls
+	}
 	c := e.contractOfFrame(fr)
 	if c == nil {
 		return nil
 	}
 	return c.Loops[li.ord]
+}
+
+// orphanContracts: contracts (of this run's contract set) whose function no longer exists in the code.
+var orphanContracts []*Contract
+
+// borrowLoopSpec: a loop for which no contract has an invariant (the loop arrived with an inlined helper, or left with
+// an extracted one). Invariants are PROVED before they are used, so where one comes from does not matter for soundness:
+// candidates are the loop clauses of contracts whose function has vanished from the same package, and - inside an
+// inlined callee without a contract - the loop clauses of the root contract whose ordinal no longer exists in the root
+// function. The first candidate all of whose names resolve here is tried; if its obligations fail the report is the
+// same kind of report as before (an unproved loop).
+func (e *Engine) borrowLoopSpec(st *State, fr *Frame, li *loopInfo) *LoopSpec {
+	type cand struct {
+		ls   *LoopSpec
+		from string
+	}
+	var cands []cand
+	pkg := ""
+	if fr.fn != nil && fr.fn.Pkg != nil {
+		pkg = fr.fn.Pkg.Pkg.Name()
+	} else if e.rootC != nil {
+		pkg = e.rootC.Pkg
+	}
+	ords := func(m map[int]*LoopSpec) []int {
+		var ks []int
+		for k := range m {
+			ks = append(ks, k)
+		}
+		sort.Ints(ks)
+		return ks
+	}
+	if fr.contract == nil && e.rootC != nil && e.rootFr != nil {
+		n := len(e.loopsOf(e.rootFr.fn))
+		for _, k := range ords(e.rootC.Loops) {
+			if k >= n {
+				cands = append(cands, cand{e.rootC.Loops[k], fmt.Sprintf("%s loop %d", e.rootC.Key, k)})
+			}
+		}
+	}
+	for _, oc := range orphanContracts {
+		if oc.Pkg != pkg {
+			continue
+		}
+		for _, k := range ords(oc.Loops) {
+			cands = append(cands, cand{oc.Loops[k], fmt.Sprintf("%s loop %d", oc.Key, k)})
+		}
+	}
+	for _, c := range cands {
+		if c.ls.Unreach || len(c.ls.Inv) == 0 {
+			continue
+		}
+		ok := func() (ok bool) {
+			defer func() {
+				if r := recover(); r != nil {
+					ok = false
+				}
+			}()
+			probe := st.Clone()
+			pf := fr.cloneForPath()
+			for _, cl := range c.ls.Inv {
+				e.evalBool(cl.E, e.invEnv(probe, pf))
+			}
+			for _, cl := range c.ls.Hints {
+				e.evalBool(cl.E, e.invEnv(probe, pf))
+			}
+			return true
+		}()
+		if ok {
+			e.notes = append(e.notes, fmt.Sprintf("loop %d of %s has no invariant of its own: using (after proving them here) the loop clauses written for %s", li.ord, fr.fn.Name(), c.from))
+			if e.borrowed == nil {
+				e.borrowed = map[*ssa.BasicBlock]*LoopSpec{}
+			}
+			e.borrowed[li.header] = c.ls
+			return c.ls
+		}
+	}
+	return nil
 }
 
 func (e *Engine) evalPhis(st *State, fr *Frame, b *ssa.BasicBlock, pred *ssa.BasicBlock) {
@@ -365,11 +445,14 @@ func (e *Engine) loopEntry(st *State, fr *Frame, li *loopInfo, pred *ssa.BasicBl
 		return
 	}
 	ls := e.loopSpec(fr, li)
+	// evaluate phis for the entry edge, assert the invariant
+	e.evalPhis(st, fr, li.header, pred)
+	if ls == nil {
+		ls = e.borrowLoopSpec(st, fr, li)
+	}
 	if ls == nil {
 		panic(unsupported("loop %d of %s has no invariant", li.ord, fr.fn.Name()))
 	}
-	// evaluate phis for the entry edge, assert the invariant
-	e.evalPhis(st, fr, li.header, pred)
 	if ls.Unreach {
 		// the back edge is proved unreachable (obligation backedge-unreachable): the header runs once, from the
 		// entry edge, with the entry state: no cut, no havoc
